@@ -95,6 +95,10 @@ def outcome(r, wait=0):
         return ['exc', name, [str(a)[:80] for a in getattr(inner, 'args', ())]]
 
 
+TEARDOWN = []      # pools whose terminate() is NOT the subject of the scenario: stopped after the result is reported
+REPORTED = [False]
+
+
 def run_one(spec):
     import billiard.pool as bp
     kind = spec['kind']
@@ -186,12 +190,12 @@ def run_one(spec):
         res['old_worker_alive'] = alive(owner[0]) if owner else None
         later = pool.apply_async(t_double, (5,))
         res['later'] = outcome(later, wait=10)
-        pool.terminate()
+        TEARDOWN.append(pool)
     elif kind == 'soft_timeout':
         pool = bp.Pool(1, soft_timeout=1, timeout=10, threads=True)
         r = pool.apply_async(t_catch_soft, (8,))
         res['outcome'] = outcome(r, wait=9)
-        pool.terminate()
+        TEARDOWN.append(pool)
     elif kind == 'worker_lost':
         pool = bp.Pool(2, lost_worker_timeout=1, threads=True)
         other = pool.apply_async(t_sleep, (1.5,))
@@ -202,7 +206,7 @@ def run_one(spec):
         res['other'] = outcome(other, wait=8)
         res['later'] = outcome(pool.apply_async(t_double, (7,)), wait=8)
         res['size'] = len(pool._pool)
-        pool.terminate()
+        TEARDOWN.append(pool)
     elif kind == 'recycle':
         pool = bp.Pool(spec.get('n', 2), maxtasksperchild=spec.get('maxtasks', 2), threads=True)
         rs = [pool.apply_async(t_pid, (i,)) for i in range(spec.get('jobs', 12))]
@@ -219,7 +223,7 @@ def run_one(spec):
         res['max_jobs_per_pid'] = max(counts.values()) if counts else 0
         res['quota'] = spec.get('maxtasks', 2)
         time.sleep(1.5)      # let workers that are on their way out finish exiting
-        pool.terminate()
+        TEARDOWN.append(pool)
     else:
         res['error'] = 'unknown scenario'
     res['wall_s'] = round(time.time() - t0, 2)
@@ -306,8 +310,9 @@ def main():
                     stacks = fh.read()[-6000:]
             except Exception:      # noqa
                 pass
-            sys.stdout.write('\n' + json.dumps(dict(kind=spec['kind'], spec=spec, hang=True, wall_s=limit, stacks=stacks, children=children)) + '\n')
-            sys.stdout.flush()
+            if not REPORTED[0]:
+                sys.stdout.write('\n' + json.dumps(dict(kind=spec['kind'], spec=spec, hang=True, wall_s=limit, stacks=stacks, children=children)) + '\n')
+                sys.stdout.flush()
             os.killpg(os.getpgid(0), signal.SIGKILL)
         threading.Thread(target=watchdog, daemon=True).start()
         import logging
@@ -318,6 +323,12 @@ def main():
             out = dict(kind=spec['kind'], spec=spec, error='%s: %s' % (type(exc).__name__, exc))
         sys.stdout.write('\n' + json.dumps(out) + '\n')
         sys.stdout.flush()
+        REPORTED[0] = True
+        for pl in TEARDOWN:          # not part of the verdict; the watchdog ends us if this hangs
+            try:
+                pl.terminate()
+            except BaseException:    # noqa
+                pass
         try:
             os.remove(childlog)
         except OSError:
